@@ -148,9 +148,10 @@ def run(m, chk):
     kvstores = [n for n in r.stmt_nodes(ctx) if isinstance(n.ast, ast.Assign) and any(isinstance(t, ast.Attribute) and mangle("BaseCurve", t.attr) == CURVE_FIELDS[0] for t in n.ast.targets)]
     chk.floor("FUNNEL-UPDATE", "knot vector rebindings in update", len(kvstores), 1)
     cp_setter_nodes = {c.cfgnode for c in ctx.calls if c.kind == "setter" and any(f.qual == sq for f in c.callees)}
-    nopts_tests = [n for n in r.stmt_nodes(ctx) if n.kind == "test" and "ctrlpoints is None" in seg(n.ast)]
+    from .c08 import path_facts
+
     for n in kvstores:
-        a = any(ctx.cfg.edge_dominates(t.id, "t", n.id) for t in nopts_tests)
+        a = ("self.ctrlpoints is None", True) in path_facts(ctx, n.id)
         reach = ctx.cfg.reachable(n.id, exc=False, avoid=cp_setter_nodes)
         b = ctx.cfg.exit not in reach
         chk.ob("FUNNEL-UPDATE", f"{uq}: `{seg(n.ast, 50)}` is the no-control-points case or is followed by the control point write", a or b, loc=r.loc(ctx, n.ast),
